@@ -639,7 +639,12 @@ theorem ampMinNeg_eq_hand (ln2 f2c amp0 rms ic oc A B xs ys : ℝ) :
   simp only [Gen.C01.ampMinNeg, ampMinNegHand, samplingHand] <;> c01_leaf
 theorem ampMaxNeg_eq_hand (ln2 f2c amp0 rms ic oc A B xs ys : ℝ) :
     Gen.C01.ampMaxNeg ln2 f2c amp0 rms ic oc A B xs ys = ampMaxNegHand ln2 f2c amp0 rms ic oc A B xs ys := by
-  simp only [Gen.C01.ampMaxNeg, ampMaxNegHand] <;> c01_leaf
+  simp only [Gen.C01.ampMaxNeg, ampMaxNegHand] <;>
+  first
+    | (c01_leaf; done)
+    | (rsimp   -- the limit written with a sign factor and `min` (helper form): −min(x, −a) = max(−x, a)
+       have h : max (-oc * rms) amp0 = -(min (oc * rms) (-amp0)) := by rw [neg_min_neg]; congr 1; ring
+       rw [h]; first | (norm_num; done) | ring1 | (norm_num; ring1))
 theorem xoLim_eq_hand (ln2 f2c amp0 rms ic oc A B xs ys : ℝ) :
     Gen.C01.xoLim ln2 f2c amp0 rms ic oc A B xs ys = xoLimHand ln2 f2c amp0 rms ic oc A B xs ys := by
   simp only [Gen.C01.xoLim, xoLimHand] <;> c01_leaf
@@ -647,14 +652,14 @@ theorem sMin_eq_hand (ln2 f2c amp0 rms ic oc A B xs ys : ℝ) :
     Gen.C01.sxMin ln2 f2c amp0 rms ic oc A B xs ys = sMinHand ln2 f2c amp0 rms ic oc A B xs ys ∧
     Gen.C01.syMin ln2 f2c amp0 rms ic oc A B xs ys = sMinHand ln2 f2c amp0 rms ic oc A B xs ys := by
   constructor
-  · simp only [Gen.C01.sxMin, sMinHand] <;> c01_leaf
-  · simp only [Gen.C01.syMin, sMinHand] <;> c01_leaf
+  · simp only [Gen.C01.sxMin, sxMinHand, sMinHand] <;> c01_leaf
+  · simp only [Gen.C01.syMin, syMinHand, sMinHand] <;> c01_leaf
 theorem sMax_eq_hand (ln2 f2c amp0 rms ic oc A B xs ys : ℝ) :
     Gen.C01.sxMax ln2 f2c amp0 rms ic oc A B xs ys = sMaxHand ln2 f2c amp0 rms ic oc A B xs ys ∧
     Gen.C01.syMax ln2 f2c amp0 rms ic oc A B xs ys = sMaxHand ln2 f2c amp0 rms ic oc A B xs ys := by
   constructor
-  · simp only [Gen.C01.sxMax, sMaxHand, sxInitHand] <;> c01_leaf
-  · simp only [Gen.C01.syMax, sMaxHand, sxInitHand] <;> c01_leaf
+  · simp only [Gen.C01.sxMax, sxMaxHand, sMaxHand, sxInitHand] <;> c01_leaf
+  · simp only [Gen.C01.syMax, syMaxHand, sMaxHand, sxInitHand] <;> c01_leaf
 theorem sInit_eq_hand (ln2 f2c amp0 rms ic oc A B xs ys : ℝ) :
     Gen.C01.sxInit ln2 f2c amp0 rms ic oc A B xs ys = sxInitHand ln2 f2c amp0 rms ic oc A B xs ys ∧
     Gen.C01.syInit ln2 f2c amp0 rms ic oc A B xs ys = syInitHand ln2 f2c amp0 rms ic oc A B xs ys := by
@@ -826,6 +831,210 @@ theorem truth_within_bounds_neg (ln2 rms ic oc A B xs ys P x0 y0 sx sy th ib jb 
     have h1 : amp0 ≤ max (-oc * rms) amp0 := le_max_right _ _
     have h2 : amp0 ≤ max (-(oc * rms)) amp0 := le_max_right _ _
     norm_num; linarith
+
+/-! #### which limit is handed to which lmfit parameter (`params.add`), regenerated -/
+
+theorem pAmpValuePos_eq_hand (ln2 f2c amp0 rms ic oc A B xs ys xo0 yo0 : ℝ) :
+    Gen.C01.pAmpValuePos ln2 f2c amp0 rms ic oc A B xs ys xo0 yo0 = pAmpValuePosHand ln2 f2c amp0 rms ic oc A B xs ys xo0 yo0 := by
+  simp only [Gen.C01.pAmpValuePos, pAmpValuePosHand, ampMinPosHand, ampMaxPosHand, ampMinNegHand, ampMaxNegHand, samplingHand, xoLimHand, sxInitHand, syInitHand, sMinHand, sMaxHand] <;>
+  first
+    | (c01_leaf; done)
+    | (rsimp
+       have h : max (-oc * rms) amp0 = -(min (oc * rms) (-amp0)) := by rw [neg_min_neg]; congr 1; ring
+       rw [h]; first | (norm_num; done) | ring1 | (norm_num; ring1))
+theorem pAmpMinPos_eq_hand (ln2 f2c amp0 rms ic oc A B xs ys xo0 yo0 : ℝ) :
+    Gen.C01.pAmpMinPos ln2 f2c amp0 rms ic oc A B xs ys xo0 yo0 = pAmpMinPosHand ln2 f2c amp0 rms ic oc A B xs ys xo0 yo0 := by
+  simp only [Gen.C01.pAmpMinPos, pAmpMinPosHand, ampMinPosHand, ampMaxPosHand, ampMinNegHand, ampMaxNegHand, samplingHand, xoLimHand, sxInitHand, syInitHand, sMinHand, sMaxHand] <;>
+  first
+    | (c01_leaf; done)
+    | (rsimp
+       have h : max (-oc * rms) amp0 = -(min (oc * rms) (-amp0)) := by rw [neg_min_neg]; congr 1; ring
+       rw [h]; first | (norm_num; done) | ring1 | (norm_num; ring1))
+theorem pAmpMaxPos_eq_hand (ln2 f2c amp0 rms ic oc A B xs ys xo0 yo0 : ℝ) :
+    Gen.C01.pAmpMaxPos ln2 f2c amp0 rms ic oc A B xs ys xo0 yo0 = pAmpMaxPosHand ln2 f2c amp0 rms ic oc A B xs ys xo0 yo0 := by
+  simp only [Gen.C01.pAmpMaxPos, pAmpMaxPosHand, ampMinPosHand, ampMaxPosHand, ampMinNegHand, ampMaxNegHand, samplingHand, xoLimHand, sxInitHand, syInitHand, sMinHand, sMaxHand] <;>
+  first
+    | (c01_leaf; done)
+    | (rsimp
+       have h : max (-oc * rms) amp0 = -(min (oc * rms) (-amp0)) := by rw [neg_min_neg]; congr 1; ring
+       rw [h]; first | (norm_num; done) | ring1 | (norm_num; ring1))
+theorem pAmpValueNeg_eq_hand (ln2 f2c amp0 rms ic oc A B xs ys xo0 yo0 : ℝ) :
+    Gen.C01.pAmpValueNeg ln2 f2c amp0 rms ic oc A B xs ys xo0 yo0 = pAmpValueNegHand ln2 f2c amp0 rms ic oc A B xs ys xo0 yo0 := by
+  simp only [Gen.C01.pAmpValueNeg, pAmpValueNegHand, ampMinPosHand, ampMaxPosHand, ampMinNegHand, ampMaxNegHand, samplingHand, xoLimHand, sxInitHand, syInitHand, sMinHand, sMaxHand] <;>
+  first
+    | (c01_leaf; done)
+    | (rsimp
+       have h : max (-oc * rms) amp0 = -(min (oc * rms) (-amp0)) := by rw [neg_min_neg]; congr 1; ring
+       rw [h]; first | (norm_num; done) | ring1 | (norm_num; ring1))
+theorem pAmpMinNeg_eq_hand (ln2 f2c amp0 rms ic oc A B xs ys xo0 yo0 : ℝ) :
+    Gen.C01.pAmpMinNeg ln2 f2c amp0 rms ic oc A B xs ys xo0 yo0 = pAmpMinNegHand ln2 f2c amp0 rms ic oc A B xs ys xo0 yo0 := by
+  simp only [Gen.C01.pAmpMinNeg, pAmpMinNegHand, ampMinPosHand, ampMaxPosHand, ampMinNegHand, ampMaxNegHand, samplingHand, xoLimHand, sxInitHand, syInitHand, sMinHand, sMaxHand] <;>
+  first
+    | (c01_leaf; done)
+    | (rsimp
+       have h : max (-oc * rms) amp0 = -(min (oc * rms) (-amp0)) := by rw [neg_min_neg]; congr 1; ring
+       rw [h]; first | (norm_num; done) | ring1 | (norm_num; ring1))
+theorem pAmpMaxNeg_eq_hand (ln2 f2c amp0 rms ic oc A B xs ys xo0 yo0 : ℝ) :
+    Gen.C01.pAmpMaxNeg ln2 f2c amp0 rms ic oc A B xs ys xo0 yo0 = pAmpMaxNegHand ln2 f2c amp0 rms ic oc A B xs ys xo0 yo0 := by
+  simp only [Gen.C01.pAmpMaxNeg, pAmpMaxNegHand, ampMinPosHand, ampMaxPosHand, ampMinNegHand, ampMaxNegHand, samplingHand, xoLimHand, sxInitHand, syInitHand, sMinHand, sMaxHand] <;>
+  first
+    | (c01_leaf; done)
+    | (rsimp
+       have h : max (-oc * rms) amp0 = -(min (oc * rms) (-amp0)) := by rw [neg_min_neg]; congr 1; ring
+       rw [h]; first | (norm_num; done) | ring1 | (norm_num; ring1))
+theorem pXoValue_eq_hand (ln2 f2c amp0 rms ic oc A B xs ys xo0 yo0 : ℝ) :
+    Gen.C01.pXoValue ln2 f2c amp0 rms ic oc A B xs ys xo0 yo0 = pXoValueHand ln2 f2c amp0 rms ic oc A B xs ys xo0 yo0 := by
+  simp only [Gen.C01.pXoValue, pXoValueHand, ampMinPosHand, ampMaxPosHand, ampMinNegHand, ampMaxNegHand, samplingHand, xoLimHand, sxInitHand, syInitHand, sMinHand, sMaxHand] <;>
+  first
+    | (c01_leaf; done)
+    | (rsimp
+       have h : max (-oc * rms) amp0 = -(min (oc * rms) (-amp0)) := by rw [neg_min_neg]; congr 1; ring
+       rw [h]; first | (norm_num; done) | ring1 | (norm_num; ring1))
+theorem pXoMin_eq_hand (ln2 f2c amp0 rms ic oc A B xs ys xo0 yo0 : ℝ) :
+    Gen.C01.pXoMin ln2 f2c amp0 rms ic oc A B xs ys xo0 yo0 = pXoMinHand ln2 f2c amp0 rms ic oc A B xs ys xo0 yo0 := by
+  simp only [Gen.C01.pXoMin, pXoMinHand, ampMinPosHand, ampMaxPosHand, ampMinNegHand, ampMaxNegHand, samplingHand, xoLimHand, sxInitHand, syInitHand, sMinHand, sMaxHand] <;>
+  first
+    | (c01_leaf; done)
+    | (rsimp
+       have h : max (-oc * rms) amp0 = -(min (oc * rms) (-amp0)) := by rw [neg_min_neg]; congr 1; ring
+       rw [h]; first | (norm_num; done) | ring1 | (norm_num; ring1))
+theorem pXoMax_eq_hand (ln2 f2c amp0 rms ic oc A B xs ys xo0 yo0 : ℝ) :
+    Gen.C01.pXoMax ln2 f2c amp0 rms ic oc A B xs ys xo0 yo0 = pXoMaxHand ln2 f2c amp0 rms ic oc A B xs ys xo0 yo0 := by
+  simp only [Gen.C01.pXoMax, pXoMaxHand, ampMinPosHand, ampMaxPosHand, ampMinNegHand, ampMaxNegHand, samplingHand, xoLimHand, sxInitHand, syInitHand, sMinHand, sMaxHand] <;>
+  first
+    | (c01_leaf; done)
+    | (rsimp
+       have h : max (-oc * rms) amp0 = -(min (oc * rms) (-amp0)) := by rw [neg_min_neg]; congr 1; ring
+       rw [h]; first | (norm_num; done) | ring1 | (norm_num; ring1))
+theorem pYoValue_eq_hand (ln2 f2c amp0 rms ic oc A B xs ys xo0 yo0 : ℝ) :
+    Gen.C01.pYoValue ln2 f2c amp0 rms ic oc A B xs ys xo0 yo0 = pYoValueHand ln2 f2c amp0 rms ic oc A B xs ys xo0 yo0 := by
+  simp only [Gen.C01.pYoValue, pYoValueHand, ampMinPosHand, ampMaxPosHand, ampMinNegHand, ampMaxNegHand, samplingHand, xoLimHand, sxInitHand, syInitHand, sMinHand, sMaxHand] <;>
+  first
+    | (c01_leaf; done)
+    | (rsimp
+       have h : max (-oc * rms) amp0 = -(min (oc * rms) (-amp0)) := by rw [neg_min_neg]; congr 1; ring
+       rw [h]; first | (norm_num; done) | ring1 | (norm_num; ring1))
+theorem pYoMin_eq_hand (ln2 f2c amp0 rms ic oc A B xs ys xo0 yo0 : ℝ) :
+    Gen.C01.pYoMin ln2 f2c amp0 rms ic oc A B xs ys xo0 yo0 = pYoMinHand ln2 f2c amp0 rms ic oc A B xs ys xo0 yo0 := by
+  simp only [Gen.C01.pYoMin, pYoMinHand, ampMinPosHand, ampMaxPosHand, ampMinNegHand, ampMaxNegHand, samplingHand, xoLimHand, sxInitHand, syInitHand, sMinHand, sMaxHand] <;>
+  first
+    | (c01_leaf; done)
+    | (rsimp
+       have h : max (-oc * rms) amp0 = -(min (oc * rms) (-amp0)) := by rw [neg_min_neg]; congr 1; ring
+       rw [h]; first | (norm_num; done) | ring1 | (norm_num; ring1))
+theorem pYoMax_eq_hand (ln2 f2c amp0 rms ic oc A B xs ys xo0 yo0 : ℝ) :
+    Gen.C01.pYoMax ln2 f2c amp0 rms ic oc A B xs ys xo0 yo0 = pYoMaxHand ln2 f2c amp0 rms ic oc A B xs ys xo0 yo0 := by
+  simp only [Gen.C01.pYoMax, pYoMaxHand, ampMinPosHand, ampMaxPosHand, ampMinNegHand, ampMaxNegHand, samplingHand, xoLimHand, sxInitHand, syInitHand, sMinHand, sMaxHand] <;>
+  first
+    | (c01_leaf; done)
+    | (rsimp
+       have h : max (-oc * rms) amp0 = -(min (oc * rms) (-amp0)) := by rw [neg_min_neg]; congr 1; ring
+       rw [h]; first | (norm_num; done) | ring1 | (norm_num; ring1))
+theorem pSxValue_eq_hand (ln2 f2c amp0 rms ic oc A B xs ys xo0 yo0 : ℝ) :
+    Gen.C01.pSxValue ln2 f2c amp0 rms ic oc A B xs ys xo0 yo0 = pSxValueHand ln2 f2c amp0 rms ic oc A B xs ys xo0 yo0 := by
+  simp only [Gen.C01.pSxValue, pSxValueHand, ampMinPosHand, ampMaxPosHand, ampMinNegHand, ampMaxNegHand, samplingHand, xoLimHand, sxInitHand, syInitHand, sMinHand, sMaxHand] <;>
+  first
+    | (c01_leaf; done)
+    | (rsimp
+       have h : max (-oc * rms) amp0 = -(min (oc * rms) (-amp0)) := by rw [neg_min_neg]; congr 1; ring
+       rw [h]; first | (norm_num; done) | ring1 | (norm_num; ring1))
+theorem pSxMin_eq_hand (ln2 f2c amp0 rms ic oc A B xs ys xo0 yo0 : ℝ) :
+    Gen.C01.pSxMin ln2 f2c amp0 rms ic oc A B xs ys xo0 yo0 = pSxMinHand ln2 f2c amp0 rms ic oc A B xs ys xo0 yo0 := by
+  simp only [Gen.C01.pSxMin, pSxMinHand, ampMinPosHand, ampMaxPosHand, ampMinNegHand, ampMaxNegHand, samplingHand, xoLimHand, sxInitHand, syInitHand, sMinHand, sMaxHand] <;>
+  first
+    | (c01_leaf; done)
+    | (rsimp
+       have h : max (-oc * rms) amp0 = -(min (oc * rms) (-amp0)) := by rw [neg_min_neg]; congr 1; ring
+       rw [h]; first | (norm_num; done) | ring1 | (norm_num; ring1))
+theorem pSxMax_eq_hand (ln2 f2c amp0 rms ic oc A B xs ys xo0 yo0 : ℝ) :
+    Gen.C01.pSxMax ln2 f2c amp0 rms ic oc A B xs ys xo0 yo0 = pSxMaxHand ln2 f2c amp0 rms ic oc A B xs ys xo0 yo0 := by
+  simp only [Gen.C01.pSxMax, pSxMaxHand, ampMinPosHand, ampMaxPosHand, ampMinNegHand, ampMaxNegHand, samplingHand, xoLimHand, sxInitHand, syInitHand, sMinHand, sMaxHand] <;>
+  first
+    | (c01_leaf; done)
+    | (rsimp
+       have h : max (-oc * rms) amp0 = -(min (oc * rms) (-amp0)) := by rw [neg_min_neg]; congr 1; ring
+       rw [h]; first | (norm_num; done) | ring1 | (norm_num; ring1))
+theorem pSyValue_eq_hand (ln2 f2c amp0 rms ic oc A B xs ys xo0 yo0 : ℝ) :
+    Gen.C01.pSyValue ln2 f2c amp0 rms ic oc A B xs ys xo0 yo0 = pSyValueHand ln2 f2c amp0 rms ic oc A B xs ys xo0 yo0 := by
+  simp only [Gen.C01.pSyValue, pSyValueHand, ampMinPosHand, ampMaxPosHand, ampMinNegHand, ampMaxNegHand, samplingHand, xoLimHand, sxInitHand, syInitHand, sMinHand, sMaxHand] <;>
+  first
+    | (c01_leaf; done)
+    | (rsimp
+       have h : max (-oc * rms) amp0 = -(min (oc * rms) (-amp0)) := by rw [neg_min_neg]; congr 1; ring
+       rw [h]; first | (norm_num; done) | ring1 | (norm_num; ring1))
+theorem pSyMin_eq_hand (ln2 f2c amp0 rms ic oc A B xs ys xo0 yo0 : ℝ) :
+    Gen.C01.pSyMin ln2 f2c amp0 rms ic oc A B xs ys xo0 yo0 = pSyMinHand ln2 f2c amp0 rms ic oc A B xs ys xo0 yo0 := by
+  simp only [Gen.C01.pSyMin, pSyMinHand, ampMinPosHand, ampMaxPosHand, ampMinNegHand, ampMaxNegHand, samplingHand, xoLimHand, sxInitHand, syInitHand, sMinHand, sMaxHand] <;>
+  first
+    | (c01_leaf; done)
+    | (rsimp
+       have h : max (-oc * rms) amp0 = -(min (oc * rms) (-amp0)) := by rw [neg_min_neg]; congr 1; ring
+       rw [h]; first | (norm_num; done) | ring1 | (norm_num; ring1))
+theorem pSyMax_eq_hand (ln2 f2c amp0 rms ic oc A B xs ys xo0 yo0 : ℝ) :
+    Gen.C01.pSyMax ln2 f2c amp0 rms ic oc A B xs ys xo0 yo0 = pSyMaxHand ln2 f2c amp0 rms ic oc A B xs ys xo0 yo0 := by
+  simp only [Gen.C01.pSyMax, pSyMaxHand, ampMinPosHand, ampMaxPosHand, ampMinNegHand, ampMaxNegHand, samplingHand, xoLimHand, sxInitHand, syInitHand, sMinHand, sMaxHand] <;>
+  first
+    | (c01_leaf; done)
+    | (rsimp
+       have h : max (-oc * rms) amp0 = -(min (oc * rms) (-amp0)) := by rw [neg_min_neg]; congr 1; ring
+       rw [h]; first | (norm_num; done) | ring1 | (norm_num; ring1))
+
+/-- **truth_within_lmfit_bounds_pos**: the statement in terms of what lmfit actually receives — for a noise-free positive
+    Gaussian no narrower than the beam whose brightest pixel (ib, jb) is within half a pixel of its centre, each of the five
+    bounded lmfit parameters is created (`params.add`) with limits that contain its true value, and with the starting
+    values amp = brightest pixel, (xo, yo) = (ib, jb).  Hypotheses as in `truth_within_bounds_pos`. -/
+theorem truth_within_lmfit_bounds_pos (ln2 rms ic oc A B xs ys P x0 y0 sx sy th ib jb : ℝ)
+    (hln2 : 0 < ln2) (hB : 0 < B) (hAB : 1 ≤ A ^ 2 + B ^ 2) (hrms : 0 ≤ rms) (hic : 0 ≤ ic) (hP : 0 < P)
+    (hsx : B * Gen.C01.fwhm2cc ln2 ≤ sx) (hsy : B * Gen.C01.fwhm2cc ln2 ≤ sy)
+    (hi : |ib - x0| ≤ 1 / 2) (hj : |jb - y0| ≤ 1 / 2)
+    (hsize : max sx sy ≤ (max xs ys + 1) * Real.sqrt 2 * Gen.C01.fwhm2cc ln2) :
+    let f2c := Gen.C01.fwhm2cc ln2
+    let amp0 := Gen.C01.gauss ib jb P x0 y0 sx sy th
+    (Gen.C01.pAmpMinPos ln2 f2c amp0 rms ic oc A B xs ys ib jb ≤ P ∧ P ≤ Gen.C01.pAmpMaxPos ln2 f2c amp0 rms ic oc A B xs ys ib jb) ∧
+    (Gen.C01.pXoMin ln2 f2c amp0 rms ic oc A B xs ys ib jb ≤ x0 ∧ x0 ≤ Gen.C01.pXoMax ln2 f2c amp0 rms ic oc A B xs ys ib jb) ∧
+    (Gen.C01.pYoMin ln2 f2c amp0 rms ic oc A B xs ys ib jb ≤ y0 ∧ y0 ≤ Gen.C01.pYoMax ln2 f2c amp0 rms ic oc A B xs ys ib jb) ∧
+    (Gen.C01.pSxMin ln2 f2c amp0 rms ic oc A B xs ys ib jb ≤ sx ∧ sx ≤ Gen.C01.pSxMax ln2 f2c amp0 rms ic oc A B xs ys ib jb) ∧
+    (Gen.C01.pSyMin ln2 f2c amp0 rms ic oc A B xs ys ib jb ≤ sy ∧ sy ≤ Gen.C01.pSyMax ln2 f2c amp0 rms ic oc A B xs ys ib jb) ∧
+    Gen.C01.pAmpValuePos ln2 f2c amp0 rms ic oc A B xs ys ib jb = amp0 ∧
+    Gen.C01.pXoValue ln2 f2c amp0 rms ic oc A B xs ys ib jb = ib ∧ Gen.C01.pYoValue ln2 f2c amp0 rms ic oc A B xs ys ib jb = jb := by
+  intro f2c amp0
+  have h := truth_within_bounds_pos ln2 rms ic oc A B xs ys P x0 y0 sx sy th ib jb hln2 hB hAB hrms hic hP hsx hsy hi hj hsize
+  simp only at h
+  obtain ⟨h1, h2, h3, h4, h5, h6, h7, h8⟩ := h
+  rw [ampMinPos_eq_hand] at h1
+  rw [ampMaxPos_eq_hand] at h2
+  rw [xoLim_eq_hand] at h3 h4
+  rw [(sMin_eq_hand _ _ _ _ _ _ _ _ _ _).1] at h5
+  rw [(sMin_eq_hand _ _ _ _ _ _ _ _ _ _).2] at h6
+  rw [(sMax_eq_hand _ _ _ _ _ _ _ _ _ _).1] at h7
+  rw [(sMax_eq_hand _ _ _ _ _ _ _ _ _ _).2] at h8
+  rw [pAmpMinPos_eq_hand, pAmpMaxPos_eq_hand, pXoMin_eq_hand, pXoMax_eq_hand, pYoMin_eq_hand, pYoMax_eq_hand,
+    pSxMin_eq_hand, pSxMax_eq_hand, pSyMin_eq_hand, pSyMax_eq_hand, pAmpValuePos_eq_hand, pXoValue_eq_hand, pYoValue_eq_hand]
+  simp only [pAmpMinPosHand, pAmpMaxPosHand, pXoMinHand, pXoMaxHand, pYoMinHand, pYoMaxHand, pSxMinHand, pSxMaxHand,
+    pSyMinHand, pSyMaxHand, pAmpValuePosHand, pXoValueHand, pYoValueHand]
+  have a3 := abs_le.mp h3
+  have a4 := abs_le.mp h4
+  rsimp
+  exact ⟨⟨h1, h2⟩, ⟨by linarith [a3.2], by linarith [a3.1]⟩, ⟨by linarith [a4.2], by linarith [a4.1]⟩, ⟨h5, h7⟩, ⟨h6, h8⟩,
+    trivial, trivial, trivial⟩
+
+/-- **truth_within_lmfit_bounds_neg**: the amplitude limits handed to lmfit for a NEGATIVE source contain its true peak -/
+theorem truth_within_lmfit_bounds_neg (ln2 rms ic oc A B xs ys P x0 y0 sx sy th ib jb : ℝ)
+    (hln2 : 0 < ln2) (hB : 0 < B) (hrms : 0 ≤ rms) (hic : 0 ≤ ic) (hP : P < 0)
+    (hsx : B * Gen.C01.fwhm2cc ln2 ≤ sx) (hsy : B * Gen.C01.fwhm2cc ln2 ≤ sy)
+    (hi : |ib - x0| ≤ 1 / 2) (hj : |jb - y0| ≤ 1 / 2) :
+    let f2c := Gen.C01.fwhm2cc ln2
+    let amp0 := Gen.C01.gauss ib jb P x0 y0 sx sy th
+    Gen.C01.pAmpMinNeg ln2 f2c amp0 rms ic oc A B xs ys ib jb ≤ P ∧ P ≤ Gen.C01.pAmpMaxNeg ln2 f2c amp0 rms ic oc A B xs ys ib jb ∧
+    Gen.C01.pAmpValueNeg ln2 f2c amp0 rms ic oc A B xs ys ib jb = amp0 := by
+  intro f2c amp0
+  have h := truth_within_bounds_neg ln2 rms ic oc A B xs ys P x0 y0 sx sy th ib jb hln2 hB hrms hic hP hsx hsy hi hj
+  simp only at h
+  obtain ⟨h1, h2⟩ := h
+  rw [ampMinNeg_eq_hand] at h1
+  rw [ampMaxNeg_eq_hand] at h2
+  rw [pAmpMinNeg_eq_hand, pAmpMaxNeg_eq_hand, pAmpValueNeg_eq_hand]
+  exact ⟨h1, h2, rfl⟩
 
 /-! ### Non-vacuity -/
 
